@@ -1,2 +1,3 @@
 //! Code shared by the check binaries that touches the crates under test.
+pub mod oracle;
 pub mod real;
